@@ -433,6 +433,27 @@ pub fn run(ctx: &mut Ctx) {
             ctx.inconclusive("small-stack thread ended without a result");
         }
     }
+    // bounds that carry build metadata: identities and depth-1/2 trees over the short-chain table
+    ctx.stratum("BM-build-metadata-on-bounds", true);
+    {
+        let pairs = build_metadata_pairs();
+        let third = operand_from_text(">=1.0.0-a+q <=1.0.1+r");
+        for (i, (a, b)) in pairs.iter().enumerate() {
+            if !ctx.take() {
+                continue;
+            }
+            let c = match (i % 3, &third) {
+                (0, Some(t)) => t.clone(),
+                _ => pairs[(i * 7 + 3) % pairs.len()].1.clone(),
+            };
+            let leaves = vec![a.clone(), b.clone(), c];
+            let l = |i: usize| Box::new(Expr::Leaf(i));
+            for t in [Expr::Minus(l(0), l(1)), Expr::And(l(0), l(1)), Expr::Minus(l(0), Box::new(Expr::Minus(l(0), l(1)))), Expr::And(Box::new(Expr::Minus(l(0), l(1))), l(1)), Expr::Minus(Box::new(Expr::And(l(0), l(1))), l(2))] {
+                judge_tree(ctx, &t, &leaves);
+            }
+            judge_identities(ctx, &leaves[0], &leaves[1], &leaves[2]);
+        }
+    }
     ctx.stratum("R-random-trees", false);
     let nr = ctx.tier.n(20_000, 5_000_000);
     for i in 0..nr {
